@@ -44,13 +44,61 @@ def build(case):
         return s, evars, passed
     g = gcheck.make_graph(case["n"], case["edges"], case.get("grown"))
     e = s.bool_array(len(case["edges"]))
-    passed = fn(s, e if case.get("array") else list(e), g, **kw)
+    ff = case.get("flagform")
+    if ff == "nested":
+        # every edge condition is a nested expression equivalent to its variable ((x & sel) | (x & ~sel), sel free)
+        sel = s.bool_var()
+        flags = [(x & sel) | (x & ~sel) for x in e]
+    elif ff == "neg":
+        flags = [~x for x in e]  # the caller fixes the inverted values
+    elif ff == "xor":
+        y = s.bool_array(len(case["edges"]))
+        s.ensure([~v for v in y])
+        flags = [(a != b) for a, b in zip(e, y)]
+    else:
+        flags = e if case.get("array") else list(e)
+    passed = fn(s, flags, g, **kw)
     return s, list(e), passed
+
+
+def layer_menu(m, edges):
+    """Second-layer patterns for graphs with more than 3 edges: nothing, each triangle / square alone, everything, one edge,
+    everything but one edge."""
+    out = [[False] * m, [True] * m, [k == 0 for k in range(m)], [k != m - 1 for k in range(m)]]
+    out.append([k < 3 for k in range(m)])
+    out.append([k >= 3 for k in range(m)])
+    return out
+
+
+def run_layers(part, case):
+    from cspuz import graph
+
+    n, edges, m = case["n"], case["edges"], len(case["edges"])
+    fn = graph.active_edges_single_cycle if case["kind"] == "cycle" else graph.active_edges_single_path
+    key = "%s[graph,%s,two-layers]" % (case["kind"], "native" if case["ugp"] else "aux")
+
+    def post(s, g):
+        e = s.bool_array(m)
+        fn(s, e, g, use_graph_primitive=case["ugp"])
+        return list(e)
+
+    def oracle(p):
+        act = [e for e, b in zip(edges, p) if b]
+        if not act:
+            return True
+        return graphref.single_cycle(n, act) if case["kind"] == "cycle" else graphref.single_path(n, act)
+
+    gcheck.run_two_layers(part, key, case, post, m, oracle, layer_menu(m, edges))
+    part.add("scale", (case["kind"], ("layers", n, m), str(case["ugp"])))
 
 
 def run_case(part, case, prange=None):
     from cspuz.array import BoolArray1D, BoolArray2D
     from cspuz.expr import BoolExpr, Op
+
+    if case.get("layers"):
+        run_layers(part, case)
+        return
 
     if "shape" in case:
         h, w = case["shape"]
@@ -98,7 +146,7 @@ def run_case(part, case, prange=None):
             else:
                 exp = graphref.single_path(n, act)
                 cls = "nonempty"
-            fixes = [gcheck.fix(v, b) for v, b in zip(evars, pattern)]
+            fixes = [gcheck.fix(v, (not b) if case.get("flagform") == "neg" else b) for v, b in zip(evars, pattern)]
             got = gcheck.judge(part, key + "{" + cls + "}", case, pattern, exp, s, fixes)
             if got and exp and not case.get("no_force_check"):
                 vis = graphref.visited(n, act)
@@ -239,6 +287,27 @@ def cases_for(tier):
             for kind in ("cycle", "path"):
                 for ugp in (False, True):
                     out.append({"kind": kind, "n": n, "edges": list(edges), "ugp": ugp, "cfg": False, "array": True, "intflags": True})
+    # edge conditions given as expressions (nested, negated, xor with a constant-false partner) instead of variables
+    for n, es in gcheck.layer_graphs():
+        if len(es) > 7:
+            continue
+        for ff in ("nested", "neg", "xor"):
+            for kind in ("cycle", "path"):
+                for ugp in ((False, True) if kind == "cycle" else (True,)):
+                    if tier == "quick" and len(es) > 3 and ff != "nested":
+                        continue
+                    out.append({"kind": kind, "n": n, "edges": list(es), "ugp": ugp, "cfg": False, "flagform": ff})
+    # the same Graph object and Solver used for two independent edge layers
+    for n, es in gcheck.layer_graphs():
+        for kind in ("cycle", "path"):
+            for ugp in ((False, True) if kind == "cycle" else (True,)):
+                if tier == "quick" and len(es) > 3 and ugp and kind == "cycle":
+                    continue
+                out.append({"kind": kind, "n": n, "edges": list(es), "ugp": ugp, "cfg": False, "layers": 2, "patterns": []})
+    # an explicit use_graph_primitive=False must win over a global default of True
+    for n, es in gcheck.layer_graphs():
+        if len(es) <= 3:
+            out.append({"kind": "cycle", "n": n, "edges": list(es), "ugp": False, "cfg": True, "array": True})
     # structured mid-sized graphs, all 2^m edge patterns (quick: m <= 8)
     for name, n, es in graphref.zoo():
         if len(es) > (8 if tier == "quick" else 12):
